@@ -84,7 +84,7 @@ func flowsToSink(p *Prog, fn *ssa.Function, src ssa.Value) string {
 				// pure value transformers: propagate the result
 				if c, ok := u.(*ssa.Call); ok {
 					sc := u.Common().StaticCallee()
-					if strings.HasPrefix(name, "(time.Time).") || strings.HasPrefix(name, "(time.Duration).") || name == "fmt.Sprintf" || name == "fmt.Sprint" ||
+					if strings.HasPrefix(name, "(time.Time).") || strings.HasPrefix(name, "(time.Duration).") || name == "time.Since" || name == "time.Until" || name == "fmt.Sprintf" || name == "fmt.Sprint" ||
 						strings.HasPrefix(name, "strconv.") || strings.HasPrefix(name, "strings.") || (sc != nil && InModule(sc) && isPureFn(sc, 0)) ||
 						strings.HasPrefix(name, "builtin:") {
 						work = append(work, c)
